@@ -9,7 +9,7 @@
    tools' chunks.  [answer c] is what the tool named by call [c] returns on [c]'s arguments
    (through the handler for an unknown name; [Err] if the name does not resolve). *)
 From Coq Require Import Permutation.
-From Eino Require Import Base.Util Model.Concat Model.ConcatMsg Model.Tools Model.ToolsMsg Model.ToolsOpts Proofs.Tools Proofs.ToolsMore Proofs.ToolsConcat Proofs.ToolsOpts Proofs.ToolsAgree.
+From Eino Require Import Base.Util Model.Concat Model.ConcatMsg Model.Tools Model.ToolsMsg Model.ToolsOpts Model.ToolsPar Proofs.Tools Proofs.ToolsMore Proofs.ToolsConcat Proofs.ToolsOpts Proofs.ToolsAgree Proofs.ToolsPar.
 Local Open Scope string_scope.
 
 (* N calls => exactly N messages, the i-th = (output of the i-th call's tool on its arguments,
@@ -344,6 +344,52 @@ Theorem tools_invoke_stream_agree :
 Proof. exact invoke_stream_agree. Qed.
 Print Assumptions tools_invoke_stream_agree.
 
+(* ---- the protocol of parallelRunToolCall (Model/ToolsPar.v): caller, one goroutine per task
+   1..N-1, the WaitGroup, the result cells.  [par_invoke prog tasks sch st0] runs the schedule
+   [sch] (which thread takes the next step; wg.Wait only passes at counter zero) where every
+   goroutine executes [prog]; [prog_ok] = the code's order: the tool, the deferred recover handler,
+   the deferred wg.Done.  [par_result] = what Invoke / Stream make of the cells once the caller is
+   through (None while it is still running).
+   For EVERY schedule the result is the model's tools_invoke / tools_stream_open (which the
+   theorems above are about; it does not depend on [pi]), and no goroutine ends while panicking
+   (the process does not die): the assumption "every slot is written before the scan" of
+   Model/Tools.v is a theorem about the protocol. ------------------------------------------- *)
+Theorem tools_par_invoke_refines :
+  forall kind_of inv str handler pi calls tasks sch st r,
+    gen_tasks kind_of handler true calls = Ok tasks ->
+    Permutation pi (seq 0 (List.length calls)) ->
+    par_invoke inv str prog_ok tasks sch (pinit tasks) = Some st ->
+    par_result assemble_invoke tasks st = Some r ->
+    r = tools_invoke kind_of inv str handler pi true calls /\ p_crash st = false.
+Proof. exact par_invoke_refines. Qed.
+Print Assumptions tools_par_invoke_refines.
+
+Theorem tools_par_stream_refines :
+  forall kind_of inv str handler pi calls tasks sch st r,
+    gen_tasks kind_of handler true calls = Ok tasks ->
+    Permutation pi (seq 0 (List.length calls)) ->
+    par_stream inv str prog_ok tasks sch (pinit tasks) = Some st ->
+    par_result assemble_stream tasks st = Some r ->
+    r = tools_stream_open kind_of inv str handler pi true calls /\ p_crash st = false.
+Proof. exact par_stream_refines. Qed.
+Print Assumptions tools_par_stream_refines.
+
+(* with wg.Done deferred AFTER the recover handler (so that it runs BEFORE it: [prog_v0]) there is
+   a schedule in which the caller passes wg.Wait and scans before the panic error of call 1 is
+   stored: the result is not the model's (which is the panic error) *)
+Theorem tools_par_v0_refuted :
+  exists kind_of inv str handler calls tasks sch st r,
+    gen_tasks kind_of handler true calls = Ok tasks
+    /\ par_invoke inv str prog_v0 tasks sch (pinit tasks) = Some st
+    /\ par_result assemble_invoke tasks st = Some r
+    /\ r <> tools_invoke kind_of inv str handler [0; 1]%nat true calls
+    /\ tools_invoke kind_of inv str handler [0; 1]%nat true calls = Err E_PANIC.
+Proof.
+  destruct par_v0_refuted as [tasks [sch [st [r H]]]].
+  eexists. eexists. eexists. eexists. eexists. exists tasks, sch, st, r. exact H.
+Qed.
+Print Assumptions tools_par_v0_refuted.
+
 (* ---- the call's option list (getToolsNodeOptions) and the per-implementation options ------- *)
 (* [get_node_opts l] = (the tool list the call brings, the tool options every execution is handed)
    after the options [l], in the order given.  Every WithToolOption counts, in order ... *)
@@ -646,3 +692,20 @@ Proof.
   vm_compute. repeat split; try reflexivity.
   intros c [<-|[<-|[]]]; discriminate.
 Qed.
+
+(* the protocol: with the code's order the caller cannot pass wg.Wait before the goroutine of the
+   panicking call 1 has stored the panic error and called wg.Done (first schedule: stuck = None);
+   once it has, the scan sees the panic error; nothing crashes *)
+Example par_refines_nonvacuous :
+  let calls := [mkCall "c0" "ta" "x"; mkCall "c1" "ta" "panic"] in
+  match gen_tasks ex_kind None true calls with
+  | Ok tasks =>
+      par_invoke ex_inv ex_str prog_ok tasks [0; 0; 1; 1; 0]%nat (pinit tasks) = None
+      /\ match par_invoke ex_inv ex_str prog_ok tasks [0; 0; 1; 1; 1; 0]%nat (pinit tasks) with
+         | Some st => par_result assemble_invoke tasks st = Some (Err E_PANIC) /\ p_crash st = false
+         | None => False
+         end
+      /\ tools_invoke ex_kind ex_inv ex_str None [1; 0]%nat true calls = Err E_PANIC
+  | _ => False
+  end.
+Proof. vm_compute. repeat split; reflexivity. Qed.
